@@ -1001,6 +1001,9 @@ class World:
             return "skip"
         if T.is_into_own_subtree(op):
             return "excluded"
+        if T.hdf5_abs_dest_quirk(r.ref, op):
+            self.probe("excluded_hdf5_abs_dest_quirk")
+            return "excluded"
         n_nodes = 0
         try:
             d0 = V.dump_tree(r.ref)[0]
